@@ -228,6 +228,12 @@ func (s *encoder) Run(ctx context.Context) {
 		return
 	}
 
+	if n := ceil(len(encodedData), perMsgLength); n > maxLongSmsParts {
+		s.canEncode = false
+		s.reason = fmt.Sprintf("%s needs %d parts, more than %d", s.Name(), n, maxLongSmsParts)
+		return
+	}
+
 	s.data = splitWithUDHI(encodedData, perMsgLength, s.frameKey)
 }
 
